@@ -55,6 +55,8 @@ def run_c15(it):
                 captured.append(m.copy())
                 return m
             opts = {}
+            if f.get("triu_false"):
+                opts["only_triu"] = False       # the merge loop needs the upper triangle: fit() has to insist on it
         else:
             series = [np().array([x[0] for x in s], dtype=np().double) for s in it["series"][f["matrix"]]]
             real = dtw.distance_matrix_fast if f["source"] == "dtw_fast" else dtw.distance_matrix
@@ -68,6 +70,8 @@ def run_c15(it):
             opts = {"inner_dist": "euclidean"}
             if f.get("window"):
                 opts["window"] = f["window"]
+            if f.get("triu_false") and f["kind"] != "linkage":
+                opts["only_triu"] = False
         # threshold between two attainable distances (+0.5) or EXACTLY an attainable one ("within max_dist" is <=)
         maxd = float("inf") if f["maxdist"] < 0 else float(f["maxdist"]) + (0.0 if f.get("exact") else 0.5)
 
@@ -84,7 +88,9 @@ def run_c15(it):
                 return idxs[-1, :]
         route = "fit#%d:%s[%s%s%s%s%s%s]" % (fi, kind, f["source"], ",swap" if f.get("swap") else "",
                                             ",order=last" if order else "", ",reuse" if f.get("reuse") else "",
-                                            ",exact" if f.get("exact") else "", ",only_triu" if f.get("only_triu") else "")
+                                            ",exact" if f.get("exact") else "", ",only_triu" if f.get("only_triu") else "") \
+            + (",triu_false" if f.get("triu_false") else "") + (",tree_maxdist" if f.get("tree_maxdist") else "")
+        route = route.replace("]", "") + "]"
         try:
             key = (kind, f["source"], f.get("swap"), f.get("order")) if kind != "tree" else (kind, f["source"])
             if kind == "hier":
@@ -107,8 +113,11 @@ def run_c15(it):
                     model._model.dists_fun = fun
                     model._model.merge_hook = hook
                 else:
+                    extra = {}
+                    if f.get("tree_maxdist") and not math.isinf(maxd):
+                        extra["max_dist"] = maxd     # documented: reset to infinity, the tree stays single-rooted
                     model = H.HierarchicalTree(dists_fun=fun, dists_options=dict(opts), merge_hook=hook,
-                                               order_hook=order, show_progress=False)
+                                               order_hook=order, show_progress=False, **extra)
                     models[key] = model
                 res = model.fit(series)
                 link = [[int(a), int(b), enc(d)] for (a, b, d, _c) in model.linkage]
